@@ -62,6 +62,7 @@ struct CallSiteInfo {
   //  h_args:       exists k!=m: actual_m is named in_formal_k and actual_k is not in_formal_k
   //  h_lhs:        some lhs_i is named like an input formal, or like out_formal_j with j>i
   bool h_args_entry = false, h_args = false, h_lhs = false;
+  bool bool_lhs = false; // some lhs is a boolean
 };
 
 struct CGProgram {
@@ -137,12 +138,16 @@ public:
     for (unsigned x = self + 1; x < cg.funcs.size(); x++)
       if (!cg.funcs[x]->orphan)
         c.push_back(x);
-    if (self > 0 && cg.allow_self)
+    if (self > 0 && cg.allow_self) {
       c.push_back(self);
+      c.push_back(self);
+    }
     if (cg.allow_back)
       for (unsigned x = 1; x < self; x++)
-        if (!cg.funcs[x]->orphan)
+        if (!cg.funcs[x]->orphan) {
           c.push_back(x);
+          c.push_back(x);
+        }
     return c;
   }
 
@@ -235,6 +240,8 @@ public:
             si.h_args_entry = true;
         }
     for (unsigned i = 0; i < lhs.size(); i++) {
+      if (lhs[i].get_type().is_bool())
+        si.bool_lhs = true;
       for (auto &w : cf.inputs)
         if (lhs[i] == w)
           si.h_lhs = true;
@@ -296,7 +303,7 @@ public:
       else b.bool_not_assume(c);
       return;
     }
-    if (cap(CAP_ASSERT) && t.flag()) {
+    if (cap(CAP_ASSERT) && t.pick(3) != 0) {
       cst_t c = assert_constraint();
       b.assertion(c, next_dbg());
     } else
@@ -306,11 +313,19 @@ public:
   void fstmt(block_t &b) {
     unsigned k = t.pick(16);
     bool has_in = !f.strict_copyin && !f.inputs.empty();
-    if (k < 7) { Gen::stmt(b); return; }
-    if (k < 10) { if (has_in) input_stmt(b); else Gen::stmt(b); return; }
+    if (k < 6) { Gen::stmt(b); return; }
+    if (k < 9) { if (has_in) input_stmt(b); else Gen::stmt(b); return; }
     if (k < 12) { cond_stmt(b); return; }
-    if (!call_stmt(b))
+    if (!call_stmt(b)) {
       Gen::stmt(b);
+      return;
+    }
+    // often an assertion right after the call (about the returned values, typically)
+    if (cap(CAP_ASSERT) && t.pick(3) == 1) {
+      PoolAll sw(*this);
+      cst_t c = assert_constraint();
+      b.assertion(c, next_dbg());
+    }
   }
 
   // ---- shapes (copies of Gen::new_block/region/guards/unstructured using fstmt) ----------
